@@ -86,7 +86,7 @@ def same_process_twice(ctx, rng, quick):
             t1, x1 = G.run_scenario(sc, keep_raw=True)
             G.run_scenario(G.random_scenario(rng, quickness=1))        # something else in between
             t2, x2 = G.run_scenario(sc, keep_raw=True)
-        except G.ConstructError:
+        except (G.ConstructError, G.NotObservable):
             continue
         n += 1
         a = [(str(r["imp"]), str(r["var"]), str(r["ml"]), str(r["mo"])) for r in x1["raws"]]
